@@ -366,7 +366,6 @@ func rootExpr(e ast.Expr) ast.Expr {
 	}
 }
 
-
 // R8: where the original-recipient map is filled
 func c18Alias(c *Check) {
 	c.Rule("R8", "pipeline AddRcpt: whenever the address handed to a target differs from what the client sent, it is recorded in OriginalRcpts: the key is the very variable passed to the target's AddRcpt, the value the copy of the parameter taken before any modifier ran, and the only guard is their inequality", 2)
@@ -476,7 +475,6 @@ func c18Alias(c *Check) {
 	c.Hold("R8", "AddRcpt:single-record-site", r.FI.Decl.Pos(), len(stores) >= 1, "")
 }
 
-
 // R9: the report's format and the way it is submitted agree
 func c18Format(c *Check) {
 	c.Rule("R9", "the internationalised-format flag given to the report generator is the flag the report is submitted with (SMTPOpts.UTF8 of the bounce), both the failed message's own SMTPUTF8 option: an RFC 6533 report is never submitted as a plain one", 1)
@@ -522,7 +520,9 @@ func c18Format(c *Check) {
 	}
 	msg := ""
 	ga, go_ := resolve(gen.Args[0])
-	isMsgFlag := func(s string) bool { return len(s) > len(".SMTPOpts.UTF8") && s[len(s)-len(".SMTPOpts.UTF8"):] == ".SMTPOpts.UTF8" }
+	isMsgFlag := func(s string) bool {
+		return len(s) > len(".SMTPOpts.UTF8") && s[len(s)-len(".SMTPOpts.UTF8"):] == ".SMTPOpts.UTF8"
+	}
 	switch {
 	case sub == nil:
 		msg = "the bounce is submitted without the SMTPUTF8 option of the failed message (an RFC 6533 report would be submitted as a plain message)"
